@@ -81,6 +81,12 @@ theorem no_early_reply (max inc : Nat) (encLen : Id → R → Nat) (ms : List Me
   rw [runCalls_incomplete _ _ _ _ _ (by simp only; omega)]
   simp [filterMap_replicate_of_none]
 
+/-- non-vacuity of `no_early_reply`: two of three request members have delivered -/
+example :
+    replies 0 2 (fun _ (_ : Nat) => 5)
+      [.req (.int 1), .invalid .null, .req (.int 2), .req (.int 3)] [(3, .int 3, 30), (0, .int 1, 10)]
+      = [] := by decide
+
 /-- **duplicate_ids_ok.**  Entries are bound to members, not to id values: whatever ids the
     members carry (equal ids included), the `k`-th completed member is answered by an entry with
     that member's index and id. -/
@@ -181,6 +187,15 @@ theorem batch_notif_invalid_silent (max inc : Nat) (encLen : Id → R → Nat) (
     | true => have := (h3.1 he).2; omega
   simp [replies, receiveBatch, this, runCalls]
 
+/-- non-vacuity: `[notif, invalid, notif]` is silent although an error entry is called for;
+    `[invalid, invalid]` and `[req, invalid]` (outside the family) get their one reply. -/
+example :
+    replies 0 2 (fun _ (_ : Nat) => 5) [.notif, .invalid (.int 3), .notif] [] = [] ∧
+    replies 0 2 (fun _ (_ : Nat) => 5) [.invalid .null, .invalid (.int 3)] []
+      = [[.err 0 .null, .err 1 (.int 3)]] ∧
+    replies 0 2 (fun _ (_ : Nat) => 5) [.req (.int 1), .invalid (.int 3)] [(0, .int 1, 10)]
+      = [[.err 1 (.int 3), .res 0 (.int 1) 10]] := by decide
+
 /-- **batch_reply_partial.**  Outside that family the full statement holds. -/
 theorem batch_reply_partial (max inc : Nat) (encLen : Id → R → Nat) (ms : List Mem)
     (calls : List (Call R)) (hperm : calls.map (fun c => (c.1, c.2.1)) ~ reqMembers 0 ms)
@@ -232,6 +247,15 @@ theorem oversize_batch (max inc : Nat) (encLen : Id → R → Nat) (calls : List
     ((entriesFrom max inc encLen 0 calls)[j]).isReal =
       (max == 0 || decide (sizeAfter inc encLen 0 (calls.take (j + 1)) ≤ max)) :=
   entriesFrom_real max inc encLen calls 0 j hj
+
+/-- non-vacuity of `oversize_batch` / `oversize_single`: results of 10 bytes each, increment 2,
+    limit 25: the first two entries fit (12, 24), the third (36) is replaced and keeps its id; a
+    single 10-byte response is kept at limit 10 and replaced at limit 9. -/
+example :
+    entriesFrom 25 2 (fun _ (_ : Nat) => 10) 0 [(2, .int 7, 1), (0, .str [97], 2), (1, .int 7, 3)]
+      = [.res 2 (.int 7) 1, .res 0 (.str [97]) 2, .big 1 (.int 7)] ∧
+    sendResultSingle 10 (fun _ (_ : Nat) => 10) (.int 4) 0 = .res 0 (.int 4) 0 ∧
+    sendResultSingle 9 (fun _ (_ : Nat) => 10) (.int 4) 0 = .big 0 (.int 4) := by decide
 
 /-- length of `batch_message_from_parts` for parts of the given lengths -/
 def batchLen (sep br : Nat) (lens : List Nat) : Nat := lens.sum + sep * (lens.length - 1) + br
